@@ -189,7 +189,7 @@ pub fn check_plan_from_assets(w: &mut World, i: usize, assets: &Assets) {
             Some(p) => p,
             None => return,
         };
-        if !w.mon.on("C17") {
+        if !w.mon.on("C17") && !w.mon.on("C01") {
             continue;
         }
         let sat_r = guard(w, "get_satisfaction(assets world)", "coord", |_| if mall { desc.get_satisfaction_mall(&sat_max) } else { desc.get_satisfaction(&sat_max) });
@@ -293,6 +293,16 @@ pub fn check_plan_from_assets(w: &mut World, i: usize, assets: &Assets) {
                         "T4",
                         format!("T4:{:?}:{:?}{}", e, kind, if known_fd { ":fd" } else { "" }),
                         format!("the completed plan does not validate with the locks it reports (nLockTime={} nSequence={:#x}): {:?} desc={}", p_lock, p_seq, e, text),
+                        "coord",
+                    );
+                    // the same fact is C01's "by completing a spending plan ... in a transaction whose lock
+                    // time and sequence meet the time locks the library reported"
+                    raise_class(
+                        w,
+                        "C01",
+                        "S1-plan",
+                        format!("S1:{:?}:{:?}:plan-with-reported-locks", e, kind),
+                        format!("completing the plan in a transaction built from the locks it reports (nLockTime={} nSequence={:#x}) gives a spend that R1 rejects ({:?}): desc={}", p_lock, p_seq, e, text),
                         "coord",
                     );
                     return;
